@@ -385,10 +385,23 @@ def run(ctx):
         truthy = [n for n, v in order if v]
         ctx.check(truthy == [u] and all(not v for n, v in order if n != u), 'C01.10', 'message:match-used:%s' % u, site_msg,
                   'fields are read from the %s match exactly when it is the first that matched (%s)' % (u, order))
-        if not (isinstance(sent, ast.Constant) and isinstance(sent.value, bool)):
+        sent_val = None
+        if isinstance(sent, ast.Constant) and isinstance(sent.value, bool):
+            sent_val = sent.value
+        else:
+            # the flag may be a condition that was decided on this path
+            facts_ = {a.text: v for a, v in p.decisions}
+            neg_ = False
+            s_ = sent
+            while isinstance(s_, ast.UnaryOp) and isinstance(s_.op, ast.Not):
+                neg_ = not neg_
+                s_ = s_.operand
+            if norm(s_) in facts_:
+                sent_val = facts_[norm(s_)] != neg_
+        if sent_val is None:
             ctx.violation('C01.10', 'message:sent-not-constant', site_msg, 'sent flag is %s on the path using %s' % (norm(sent), u))
             continue
-        tries.append(([n for n, _ in order], u, sent.value, msgcall, p))
+        tries.append(([n for n, _ in order], u, sent_val, msgcall, p))
     # no-match path raises the not-a-message error with the raw line
     def _searches(p):
         return [tv for bt, tv in (truthy_view(a, v) for a, v in p.decisions) if re.search(r'\.search\(raw\)$', bt)]
@@ -400,39 +413,72 @@ def run(ctx):
                   'a line that matches no pattern is not rejected with RuntimeError(raw): %s' % p.outcome_text())
     ctx.floor('C01.10', len(nomatch), 1, 'no-match path of message()')
     ctx.floor('C01.10', len(tries), 2, 'returning paths of message()')
-    seq = max(tries, key=lambda t: len(t[0]))[0]      # full order of searches
-    flag_of = {u: s for _, u, s, _, _ in tries}
-    for attr in seq:
-        if attr not in pats:
-            raise AnalysisError('C01: message() searches with unknown pattern %s' % attr)
-        if msg_uses.get(attr) != 'search':
-            raise AnalysisError('C01: line pattern %s used with %s (model expects search)' % (attr, msg_uses.get(attr)))
-    nfas = {a: rx.regex_nfa(pats[a][0], 'search') for a in seq}
+    # Direction by conditioning the line language on the decisions message() takes (in order) about the raw line.
+    for attr, mode in msg_uses.items():
+        if mode != 'search':
+            raise AnalysisError('C01: line pattern %s used with %s (model expects search)' % (attr, mode))
+
+    def raw_atom(e):
+        """('search', attr, polarity) / ('contains', literal, polarity) / None (not about the raw line) for a decide event."""
+        t = e.text
+        m = re.match(r"^.*\.(\w+)\.search\(raw\)( is None)?$", t)
+        if m and m.group(1) in pats:
+            return ('search', m.group(1), not m.group(2))
+        m = re.match(r"^'((?:[^'\\]|\\.)*)' in raw$", t)
+        if m:
+            return ('contains', ast.literal_eval("'" + m.group(1) + "'"), True)
+        if 'raw' in t and '.group(' not in t and not re.search(r'\(raw\)\.', t):
+            raise AnalysisError('C01: message() decides on the raw line with `%s`, which the language model does not cover' % t)
+        return None
+    lang_nfas = {}
+    for a_ in msg_uses:
+        lang_nfas[('search', a_)] = rx.regex_nfa(pats[a_][0], 'search')
+    for p in msg_paths:
+        for e in p.events:
+            if e.kind == 'decide':
+                ra = raw_atom(e)
+                if ra and ra[0] == 'contains' and ('contains', ra[1]) not in lang_nfas:
+                    lang_nfas[('contains', ra[1])] = rx.contains_literal_nfa(ra[1])
     for dname, dtext, want_sent in (('sent', '  -> ', True), ('received', ' ', False)):
         for label, argrx in (('no-string-args', ARG_NOSTR), ('with-string-args', ARG_ALL)):
-            L = rx.regex_nfa(line_rx(dtext, argrx, maxargs), 'full')
-            decided = False
-            for attr in seq:
-                w = rx.intersects(L, nfas[attr])
-                if w is None:
-                    ctx.ok('C01.7', site_pat, '%s lines (%s) vs %s' % (dname, label, attr), 'disjoint: never taken by this earlier pattern')
+            Ln = rx.regex_nfa(line_rx(dtext, argrx, maxargs), 'full')
+            reps = rx.common_partition([Ln] + list(lang_nfas.values()))
+            Ld = rx.to_dfa(Ln, reps)
+            dfas = {k: rx.to_dfa(v, reps) for k, v in lang_nfas.items()}
+            n_feasible = 0
+            for p in msg_paths:
+                cur = Ld
+                for e in p.events:
+                    if e.kind != 'decide':
+                        continue
+                    ra = raw_atom(e)
+                    if ra is None:
+                        continue
+                    d_ = dfas[(ra[0], ra[1])]
+                    val = e.value if ra[2] else (not e.value)
+                    cur = rx.dfa_and(cur, d_ if val else rx.dfa_not(d_))
+                    if rx.dfa_witness(cur) is None:
+                        cur = None
+                        break
+                if cur is None:
                     continue
-                if flag_of.get(attr) != want_sent:
+                w = rx.dfa_witness(cur)
+                n_feasible += 1
+                if p.outcome[0] != 'return':
+                    ctx.violation('C01.6', '%s-line:%s:rejected' % (dname, label), site_msg,
+                                  'a %s message line is rejected as not-a-message (%s), e.g. %r' % (dname, p.outcome_text()[:40], w), {'line': w, 'path': p.describe()[:200]})
+                    continue
+                hit = [t_ for t_ in tries if t_[4] is p]
+                if not hit:
+                    continue        # shape problems of this path were reported above
+                _, attr, sentv, _, _ = hit[0]
+                if sentv != want_sent:
                     ctx.violation('C01.7', '%s-line:%s:taken-by:%s' % (dname, label, attr), site_msg,
-                                  'a %s line can match %s (tried first, unanchored) and is decoded with sent=%s, e.g. %r'
-                                  % (dname, attr, flag_of.get(attr), w), {'line': w, 'pattern': pats[attr][0]})
-                    decided = True
-                    break
-                cex = rx.included(L, nfas[attr])
-                ctx.check(cex is None, 'C01.6', '%s-line:%s:accepted-by:%s' % (dname, label, attr), site_pat,
-                          'every %s line (<=%d args, both dialects, optional {queue} and <conn>) is accepted by %s with sent=%s'
-                          % (dname, maxargs, attr, want_sent),
-                          'a %s line is not recognised by %s: %r' % (dname, attr, cex), witness={'line': cex})
-                decided = True
-                break
-            if not decided:
-                ctx.violation('C01.6', '%s-line:%s:unmatched' % (dname, label), site_pat,
-                              '%s lines match none of the line patterns' % dname)
+                                  'a %s line can be matched by %s and is decoded with sent=%s, e.g. %r' % (dname, attr, sentv, w), {'line': w, 'pattern': pats[attr][0]})
+                else:
+                    ctx.ok('C01.6', site_pat, '%s-line:%s:accepted-by:%s' % (dname, label, attr),
+                           'every %s line (<=%d args, both dialects, optional {queue} and <conn>) that takes this path is decoded from %s with sent=%s' % (dname, maxargs, attr, want_sent))
+            ctx.check(n_feasible >= 1, 'C01.6', '%s-line:%s:some-path' % (dname, label), site_msg, '%s lines take at least one path through message()' % dname)
 
     # ---- C01.11 / C01.12 field provenance and group order --------------------------------------
     for order, attr, sentv, call, p in tries:
